@@ -57,10 +57,10 @@ def axref(a):
     return a
 
 
-def sub_index(j):
+def sub_index(j, ik=None):
     if isinstance(j, dict):
         return slice(j["s"][0], j["s"][1])
-    return int(j)
+    return int(j) if not ik else np.dtype(ik).type(int(j))      # ik: integer indices as numpy integer scalars of that type
 
 
 def step(s: Store, op: dict, log: list):
@@ -164,14 +164,14 @@ def step(s: Store, op: dict, log: list):
             s.set(op["out"], s.get(op["h"]).projection(*op["axes"])); return "ok"
         if name == "getitem":
             x = s.get(op["h"])
-            idx = tuple(sub_index(j) for j in op["index"])
+            idx = tuple(sub_index(j, op.get("ik")) for j in op["index"])
             r = x[idx[0]] if (len(idx) == 1 and op.get("bare")) else x[idx]
             if isinstance(r, tuple):
                 return {"value": rs(r[1])}
             s.set(op["out"], r)
             return "ok"
         if name == "select":
-            s.set(op["out"], s.get(op["h"]).select(op["axis"], sub_index(op["index"]))); return "ok"
+            s.set(op["out"], s.get(op["h"]).select(op["axis"], sub_index(op["index"], op.get("ik")))); return "ok"
         if name == "T":
             s.set(op["out"], s.get(op["h"]).T); return "ok"
         if name == "accumulate":
